@@ -22,13 +22,14 @@ type c19Case struct {
 	callers int
 	hold    time.Duration // how long each holder keeps its token (0 = a schedule point only)
 	backlog int           // maximum backlog (0 = 10)
+	eager   bool          // backlog timeouts may fire at any point (a caller giving up while it is being handed a token)
 }
 
 func c19Scenario(cs c19Case) *mc.Scenario {
 	return &mc.Scenario{
 		Name:   "C19/" + cs.kind,
-		Params: fmt.Sprintf("limit=%d callers=%d backlog=%d timeout=1s hold=%v", cs.limit, cs.callers, cs.bl(), cs.hold),
-		Cfg:    vrt.Config{Events: true, MaxSteps: 6000},
+		Params: fmt.Sprintf("limit=%d callers=%d backlog=%d timeout=1s hold=%v eager-clock=%v", cs.limit, cs.callers, cs.bl(), cs.hold, cs.eager),
+		Cfg:    vrt.Config{Events: true, MaxSteps: 6000, EagerClock: cs.eager, Horizon: int64(10 * time.Second)},
 		Body: func(x *mc.Exec) {
 			st := buildStack(cs.kind, cs.limit, stackOpts{maxBacklog: cs.bl()})
 			ws := &waitState{st: st, inAcq: make([]bool, cs.callers), granted: make([]bool, cs.callers), returned: make([]bool, cs.callers),
@@ -104,7 +105,9 @@ func c19Scenario(cs c19Case) *mc.Scenario {
 			if r.Stuck && !x.Failed() {
 				x.Fail("stuck", "deadlock: %v", r.StuckInfo)
 			}
-			if x.Failed() {
+			if x.Failed() || cs.eager {
+				// (eager clock: a caller whose timeout fired is refused legitimately; what remains is the
+				// quiescence oracle — nobody stays parked while a slot is free — and the holder count)
 				return
 			}
 			if ws, _ := x.Aux.(*waitState); ws != nil {
@@ -149,6 +152,9 @@ func runC19(c *Ctx) {
 		c.Explore(c19Scenario(c19Case{kind: kind, limit: 1, callers: 3, hold: 300 * time.Millisecond}), mc.Options{PreemptBound: c.Pick(2, 3)})
 		// exactly as many callers as limit + backlog: nobody may be turned away
 		c.Explore(c19Scenario(c19Case{kind: kind, limit: 1, callers: 3, backlog: 2}), mc.Options{PreemptBound: c.Pick(2, 3)})
+		// a queued caller's timeout fires while it is being handed a token: the callers behind it must
+		// still be served
+		c.Explore(c19Scenario(c19Case{kind: kind, limit: 1, callers: 3, eager: true}), mc.Options{PreemptBound: c.Pick(2, 3)})
 		if c.Thorough() {
 			c.ExploreBig(c19Scenario(c19Case{kind: kind, limit: 2, callers: 4}), mc.Options{PreemptBound: 2})
 			c.Explore(c19Scenario(c19Case{kind: kind, limit: 2, callers: 4, backlog: 2, hold: 300 * time.Millisecond}), mc.Options{PreemptBound: 2})
